@@ -54,12 +54,12 @@ Record cfg := {
 }.
 
 (* /repo at the current head: F3 (9f55003), F5 (0ec1e88), F4 (6b3ddc7), F16 + root (7de64dd), dryinit
-   (e70794c), ignore (769373d), implicit (fbe1a6a) are repaired; the exclude patterns inside copytree
-   (fix_excl) and the ByKey state shared by the thread pool (fix_shared) are open known findings *)
+   (402f6f3), ignore (0fb80cd), implicit (af70570), ByKey conflicts per call + gated clear() (c3330a7) are
+   repaired; the exclude patterns inside copytree (fix_excl) are the one open known finding *)
 Definition cfg_current : cfg :=
   {| fix_F3 := true; fix_F4 := true; fix_F5 := true; fix_F16 := true; fix_root := true;
      fix_excl := false; fix_dryinit := true; fix_ignore := true; fix_implicit := true;
-     fix_shared := false |}.
+     fix_shared := true |}.
 Definition cfg_fixed : cfg :=
   {| fix_F3 := true; fix_F4 := true; fix_F5 := true; fix_F16 := true; fix_root := true;
      fix_excl := true; fix_dryinit := true; fix_ignore := true; fix_implicit := true;
@@ -464,7 +464,9 @@ Section Model.
            dry_run) followed by proxy.update(backup) (gated) *)
         match e with
         | None => (put ddir, None)
-        | Some x => (write_doc fn (if dry then [] else ddoc) ddir, Some x)
+        | Some x =>
+            (* with fix_shared (c3330a7) clear() honours dry_run as well: a dry run rolls nothing back *)
+            (if dry && fix_shared cf then ddir else write_doc fn (if dry then [] else ddoc) ddir, Some x)
         end
     end.
 
